@@ -5,6 +5,23 @@ from pbt import ir, render
 from pbt.harness import PropertyViolation
 
 
+class StepBudget(BaseException):
+    """Raised by the counting wrapper when a simulation evaluates the rate vector more often than allowed."""
+
+
+def limit_steps(model, budget):
+    inner = model.eventRateVector
+    box = {"n": 0}
+
+    def counted(state, t):
+        box["n"] += 1
+        if box["n"] > budget:
+            raise StepBudget("rate vector evaluated more than %d times" % budget)
+        return inner(state, t)
+    model.eventRateVector = counted
+    return box
+
+
 def prepare(m, setup, routes=None, backend="lambda"):
     model, order = render.build(m, routes=routes, backend=backend)
     model.parameters = list(setup["theta"])
